@@ -41,6 +41,19 @@
 //     extra parameter `e<k>_<name>` holding its value;
 //   - a keyed literal `T{…}` of a translated struct type is the Lean structure
 //     value (missing fields zero), `&T{…}` is `some` of it;
+//   - with `"symbolic": true` in the spec file, values of abstract types are
+//     *tokens* instead of being dropped: Lean `String` (`Option String` for Go
+//     types that have nil: pointers, interfaces, slices, maps, funcs).  Tokens
+//     come from parameters, struct fields, opaque calls and opaque values, so a
+//     theorem that quantifies over them covers every value; `==` on abstract
+//     values is equality of tokens; `T{}` is the token "" (the zero value), a
+//     keyed literal `T{f: v}` of an abstract struct is the token "T{f=v;}"
+//     built from its scalar/token field values; a package-level variable is
+//     the token of its name; type assertions and slice expressions on abstract
+//     values are opaque values; fmt.Errorf / errors.New are non-nil error
+//     texts also in traced functions.  Nil dereferences of abstract pointers
+//     and mutation through them are not modelled (calls on them are trace
+//     entries);
 //   - []error literals, append on them and errors.Join are lists of optional
 //     texts and "first non-nil" (errors.Join is non-nil iff an element is);
 //   - any other call is *opaque*: its result becomes an extra parameter of the
@@ -106,6 +119,8 @@ type TrFunc struct {
 
 type trSpecFile struct {
 	Funcs []TrFunc `json:"funcs"`
+	// Symbolic turns values of abstract types into tokens (see the header).
+	Symbolic bool `json:"symbolic,omitempty"`
 }
 
 type loadedPkg struct {
@@ -216,6 +231,8 @@ type translator struct {
 	funcs   map[string]*funcOut // key: pkgpath + "." + Recv.Name
 	byDecl  map[string]TrFunc
 	out     []*funcOut
+	// symbolic: values of abstract types are tokens (String / Option String).
+	symbolic bool
 }
 
 type funcOut struct {
@@ -232,8 +249,25 @@ type funcOut struct {
 	busy    bool
 }
 
-// leanType returns the Lean type of a Go type, or "" if untranslatable.
+// leanType returns the Lean type of a Go type, or "" if untranslatable.  In
+// symbolic mode an abstract type is a token: `Option String` if the Go type has
+// nil (pointer, interface, slice, map, func, chan), `String` otherwise.
 func (t *translator) leanType(ty types.Type) string {
+	s := t.leanTypeC(ty)
+	if s == "" && t.symbolic {
+		switch ty.Underlying().(type) {
+		case *types.Pointer, *types.Interface, *types.Slice, *types.Map, *types.Signature, *types.Chan:
+			return "(Option String)"
+		}
+		return "String"
+	}
+	return s
+}
+
+// abstract reports whether ty has no concrete Lean counterpart.
+func (t *translator) abstract(ty types.Type) bool { return t.leanTypeC(ty) == "" }
+
+func (t *translator) leanTypeC(ty types.Type) string {
 	switch u := ty.(type) {
 	case *types.Named:
 		if u.Obj().Pkg() == nil && u.Obj().Name() == "error" {
@@ -242,9 +276,9 @@ func (t *translator) leanType(ty types.Type) string {
 		if st, ok := u.Underlying().(*types.Struct); ok {
 			return t.structType(u, st)
 		}
-		return t.leanType(u.Underlying())
+		return t.leanTypeC(u.Underlying())
 	case *types.Alias:
-		return t.leanType(types.Unalias(u))
+		return t.leanTypeC(types.Unalias(u))
 	case *types.Basic:
 		switch {
 		case u.Info()&types.IsInteger != 0:
@@ -572,6 +606,9 @@ func (c *fctx) expr(e ast.Expr) ex {
 				if isError(v.Type()) {
 					return ex{code: fmt.Sprintf("(some %q)", x.Name)}
 				}
+				if c.t.symbolic && c.t.abstract(v.Type()) {
+					return c.token(v.Type(), x.Name)
+				}
 				fail("package-level variable %s", x.Name)
 			}
 			return ex{code: leanIdent(x.Name)}
@@ -618,6 +655,16 @@ func (c *fctx) expr(e ast.Expr) ex {
 	if _, ok := e.(*ast.IndexExpr); ok {
 		return c.opaqueValue(e)
 	}
+	if c.t.symbolic && c.t.abstract(c.typeOf(e)) {
+		switch x := e.(type) {
+		case *ast.CompositeLit:
+			if _, ok := c.typeOf(x).Underlying().(*types.Struct); ok {
+				return c.tokenLit(x)
+			}
+		case *ast.TypeAssertExpr, *ast.SliceExpr:
+			return c.opaqueValue(e)
+		}
+	}
 	fail("expression %s (%T)", c.show(e), e)
 	return ex{}
 }
@@ -657,6 +704,43 @@ func (c *fctx) structLit(x *ast.CompositeLit, st *types.Struct, lt string) ex {
 	})
 }
 
+// token is a fixed token of abstract type ty (symbolic mode).
+func (c *fctx) token(ty types.Type, name string) ex {
+	if c.t.leanType(ty) == "String" {
+		return ex{code: fmt.Sprintf("%q", name)}
+	}
+	return ex{code: fmt.Sprintf("(some %q)", name)}
+}
+
+// tokenLit is the token of a literal of an abstract struct type: "" for the
+// zero value `T{}`, otherwise "T{f=v;…}" over the keyed fields whose values are
+// integers, booleans, strings or tokens.
+func (c *fctx) tokenLit(x *ast.CompositeLit) ex {
+	if len(x.Elts) == 0 {
+		return ex{code: `""`}
+	}
+	var names []string
+	var xs []ex
+	for _, el := range x.Elts {
+		kv, ok := el.(*ast.KeyValueExpr)
+		if !ok {
+			fail("positional literal %s", c.show(x))
+		}
+		v := c.expr(kv.Value)
+		if lt := c.t.leanType(c.typeOf(kv.Value)); lt != "String" {
+			v = c.bindN([]ex{v}, func(s []string) string { return "(toString " + s[0] + ")" })
+		}
+		names, xs = append(names, c.show(kv.Key)), append(xs, v)
+	}
+	return c.bindN(xs, func(s []string) string {
+		r := fmt.Sprintf("%q", c.show(x.Type)+"{")
+		for i, n := range names {
+			r += fmt.Sprintf(" ++ %q ++ %s", n+"=", s[i]) + ` ++ ";"`
+		}
+		return "(" + r + ` ++ "}")`
+	})
+}
+
 // opaqueValue turns an expression the subset cannot express (an element of a
 // slice, a field of a library struct) into an extra parameter holding its value.
 func (c *fctx) opaqueValue(e ast.Expr) ex {
@@ -685,6 +769,9 @@ func (c *fctx) selector(x *ast.SelectorExpr) ex {
 			if isError(c.typeOf(x)) {
 				return ex{code: fmt.Sprintf("(some %q)", c.show(x))}
 			}
+			if c.t.symbolic && c.t.abstract(c.typeOf(x)) {
+				return c.token(c.typeOf(x), c.show(x))
+			}
 			fail("package-qualified value %s", c.show(x))
 		}
 	}
@@ -692,7 +779,7 @@ func (c *fctx) selector(x *ast.SelectorExpr) ex {
 	if sel == nil || sel.Kind() != types.FieldVal {
 		fail("selector %s is not a field", c.show(x))
 	}
-	if bt := c.typeOf(x.X); c.t.leanType(bt) == "" {
+	if bt := c.typeOf(x.X); c.t.abstract(bt) {
 		return c.opaqueValue(x)
 	}
 	if len(sel.Index()) != 1 {
@@ -760,7 +847,7 @@ func (c *fctx) binary(x *ast.BinaryExpr) ex {
 			var r string
 			if isBool(tx) {
 				r = "(" + s[0] + " == " + s[1] + ")"
-			} else if isInt(tx) || isString(tx) {
+			} else if isInt(tx) || isString(tx) || (c.t.symbolic && c.t.abstract(tx)) {
 				r = "(decide (" + s[0] + " = " + s[1] + "))"
 			} else {
 				fail("equality on %s", tx)
@@ -978,7 +1065,7 @@ func (c *fctx) call(x *ast.CallExpr) ex {
 		return r
 	}
 	// errors made by any other call: opaque non-nil error value labelled by source text
-	if isError(c.typeOf(x)) && !c.trace {
+	if isError(c.typeOf(x)) && (!c.trace || c.t.symbolic) {
 		if tup, ok := c.typeOf(x).(*types.Tuple); !ok || tup.Len() == 1 {
 			switch c.show(x.Fun) {
 			case "fmt.Errorf", "errors.New", "errors.Error", "newNotPositiveError", "newNegativeError", "newMustBeUniqueError":
@@ -1676,7 +1763,7 @@ func runTranslator(specDir, outDir, harness, modfile string) error {
 	sort.Strings(props)
 	for _, prop := range props {
 		sf := specs[prop]
-		t := &translator{l: l, structs: map[string]*structDef{}, funcs: map[string]*funcOut{}, byDecl: map[string]TrFunc{}}
+		t := &translator{l: l, structs: map[string]*structDef{}, funcs: map[string]*funcOut{}, byDecl: map[string]TrFunc{}, symbolic: sf.Symbolic}
 		for _, f := range sf.Funcs {
 			t.byDecl[repoModule+f.Pkg+"."+f.Func] = f
 		}
